@@ -7,7 +7,7 @@ from gymnasium.spaces.box import get_inf
 
 from abmarl.sim import is_agent
 
-from .sar_wrapper import SARWrapper
+from .sar_wrapper import SARWrapper, has_null_point
 
 
 def _ravel_helper(space, point):
@@ -167,12 +167,12 @@ class RavelDiscreteWrapper(SARWrapper):
                 f"{agent_id} action must be discretizable."
             self.agents[agent_id].observation_space = ravel_space(wrapped_agent.observation_space)
             self.agents[agent_id].action_space = ravel_space(wrapped_agent.action_space)
-            if self.agents[agent_id].null_observation:
+            if has_null_point(self.agents[agent_id].null_observation):
                 self.agents[agent_id].null_observation = ravel(
                     self.sim.agents[agent_id].observation_space,
                     wrapped_agent.null_observation
                 )
-            if self.agents[agent_id].null_action:
+            if has_null_point(self.agents[agent_id].null_action):
                 self.agents[agent_id].null_action = ravel(
                     self.sim.agents[agent_id].action_space,
                     wrapped_agent.null_action
